@@ -63,7 +63,10 @@ impl Discrete for Poisson {
         if k < 0 {
             0.
         } else {
-            self.lambda.powi(k as i32) * (-self.lambda).exp() / gamma(k as f64 + 1.)
+            // lambda^k and k! overflow long before their ratio does (lambda = 100, k = 155 gave inf,
+            // lambda = 37, k = 219 gave NaN), so the terms are combined in log space
+            let ln_k_factorial: f64 = (2..=k).map(|i| (i as f64).ln()).sum();
+            (k as f64 * self.lambda.ln() - self.lambda - ln_k_factorial).exp()
         }
     }
 }
